@@ -44,6 +44,9 @@ type ChildCase struct {
 	// PreloadPolicy: the other thread loads this (different) policy instead, without thread-sync: its filter is then not
 	// an ancestor of the judged caller's, and a thread-sync load must be refused.
 	PreloadPolicy *PolicySpec `json:"preload_policy,omitempty"`
+	// Linux32: the child switches to the PER_LINUX32 execution domain first (as under `linux32`/`setarch i686`): uname(2)
+	// then reports a 32-bit machine while the process still makes the system calls of its own ABI.
+	Linux32 bool `json:"linux32,omitempty"`
 	// OuterPolicy: before the judged load, the judged thread itself loads this policy (staged lock-down: the judged load
 	// then runs under a filter).
 	OuterPolicy  *PolicySpec `json:"outer_policy,omitempty"`
